@@ -73,6 +73,18 @@ theorem inv_mutate {m : Mode} {post : Store → R} {s : St R} (h : Inv m post s)
     have := h.ops o ho
     exact ⟨Nat.le_succ_of_le this.1, WInv_mono (Nat.le_succ _) hh this.2⟩
 
+theorem inv_invalidate {m : Mode} {post : Store → R} {s : St R} (h : Inv m post s) :
+    Inv m post { s with gen := s.gen + 1, hist := s.hist ++ [s.store] } := by
+  have hh := hist_append s.hist s.store
+  refine { len := ?_, cur := ?_, cval := ?_, ops := ?_ }
+  · simp [h.len]
+  · show (s.hist ++ [s.store])[s.gen + 1]? = some s.store
+    rw [← h.len]; simp
+  · exact ValidRes_mono (Nat.le_succ _) hh h.cval
+  · intro o ho
+    have := h.ops o ho
+    exact ⟨Nat.le_succ_of_le this.1, WInv_mono (Nat.le_succ _) hh this.2⟩
+
 /-- updating the record of one operation (and launcher-only fields) keeps the invariant, provided
 the new worker phase is justified -/
 theorem inv_update {m : Mode} {post : Store → R} {s : St R} (h : Inv m post s) (r : Nat) (o : Op R)
@@ -127,6 +139,7 @@ theorem inv_step {m : Mode} {post : Store → R} {s s' : St R} {l : Label}
   cases l with
   | set k v => simp only [step, Option.some.injEq] at hs; subst hs; exact inv_mutate h _ _
   | del k => simp only [step, Option.some.injEq] at hs; subst hs; exact inv_mutate h _ _
+  | inv => simp only [step, Option.some.injEq] at hs; subst hs; exact inv_invalidate h
   | cEnter r isReq =>
     simp only [step] at hs
     split at hs
@@ -311,6 +324,7 @@ theorem step_cache_change {m : Mode} {post : Store → R} {s s' : St R} {l : Lab
   cases l with
   | set k v => simp only [step, Option.some.injEq] at hs; subst hs; simp [mutate] at hc
   | del k => simp only [step, Option.some.injEq] at hs; subst hs; simp [mutate] at hc
+  | inv => simp only [step, Option.some.injEq] at hs; subst hs; simp at hc
   | cEnter r isReq =>
     simp only [step] at hs
     split at hs
